@@ -65,7 +65,7 @@ func c14Judge(k c14Case) *vlib.Failure {
 			}
 		}
 	case "api", "api-after-debug", "api-after-parts":
-		apiCfg := cors.Config{Origins: []string{"https://a.b"}, RequestHeaders: append([]string(nil), k.Set...)}
+		apiCfg := cors.Config{Origins: []string{"https://a.b"}, RequestHeaders: c14ConfigNames(k.Set)}
 		m, err := cors.NewMiddleware(apiCfg)
 		if err != nil {
 			return vlib.Failf("configuration rejected: %v", err)
@@ -97,6 +97,16 @@ func c14Judge(k c14Case) *vlib.Failure {
 		return vlib.Failf("bad case")
 	}
 	return nil
+}
+
+// c14ConfigNames is how the public-API passes spell the allowed set in the configuration: every name once as
+// given, then every name again in upper case and in reverse order (the configured list is a set: C15).
+func c14ConfigNames(set []string) []string {
+	out := append([]string(nil), set...)
+	for i := len(set) - 1; i >= 0; i-- {
+		out = append(out, strings.ToUpper(set[i]))
+	}
+	return out
 }
 
 // c14ServeParts serves, as preflights of their own, every single line of the sequence and every proper prefix of
@@ -439,7 +449,7 @@ func checkC14(c *vlib.Ctx) (string, string) {
 		if f.long {
 			wa = vlib.NewWords(f.alpha, vlib.Pick(c, 3, 4))
 		}
-		apiCfg := cors.Config{Origins: []string{"https://a.b"}, RequestHeaders: append([]string(nil), f.set...)}
+		apiCfg := cors.Config{Origins: []string{"https://a.b"}, RequestHeaders: c14ConfigNames(f.set)}
 		m, err := cors.NewMiddleware(apiCfg)
 		if err != nil {
 			ck.Report(c14Case{f.set, nil, "api"}, vlib.Failf("configuration rejected: %v", err))
@@ -465,7 +475,7 @@ func checkC14(c *vlib.Ctx) (string, string) {
 		// history: the lines were first seen while debug mode was on (where they are not validated), then debug is
 		// switched off and the same lines come again
 		apiAfterDebug := func(lines []string) {
-			mh, err := cors.NewMiddleware(cors.Config{Origins: []string{"https://a.b"}, RequestHeaders: f.set})
+			mh, err := cors.NewMiddleware(cors.Config{Origins: []string{"https://a.b"}, RequestHeaders: c14ConfigNames(f.set)})
 			if err != nil {
 				return
 			}
@@ -488,7 +498,7 @@ func checkC14(c *vlib.Ctx) (string, string) {
 		}
 		// history: the parts of the sequence come first, as preflights of their own, on a middleware of their own
 		apiAfterParts := func(lines []string) {
-			mh, err := cors.NewMiddleware(cors.Config{Origins: []string{"https://a.b"}, RequestHeaders: f.set})
+			mh, err := cors.NewMiddleware(cors.Config{Origins: []string{"https://a.b"}, RequestHeaders: c14ConfigNames(f.set)})
 			if err != nil {
 				return
 			}
